@@ -245,6 +245,7 @@ func hostileQueries(rng *rand.Rand, hr *HistRun, latest int64, n int) []hostileQ
 
 func checkC09(c *Ctx) {
 	c.rule = "hostile inputs against a live replica process holding a non-trivial state (stakes, proposals, contracts): random bytes, truncated / bit-flipped valid encodings, signed and unsigned envelopes with hostile field values (address lengths 0..1000, amounts/prices at 0, 2^255+-1, 2^256-1, 33-byte encodings, gas 0/2^63/2^64-1, unknown and negative types, payload/type mismatches, hostile payloads per type, unknown senders, odd signatures) on CheckTx and inside blocks on DeliverTx; queries over every path x data length {0,1,19,20,31,32,33,39,40,41,100,5000} x height {-1,0,1,latest-1,latest,latest+1,+-2^62}; delayed effects: accepted hostile proposals are voted in and run to their applying height. One third of the replicas run the -race build (a race report is a violation), one third the AddressSanitizer build (Go code and the cgo secp256k1 library instrumented; a report kills the process and is reported as a node death). Oracle: the process stays alive, every call returns, a canary (known account query + a valid transfer) still works after every batch. distinct = distinct (input class, response code) pairs"
+	c.assumptions = append(c.assumptions, "application calls never overlap in the node: consensus, mempool and query connections share the one mutex of rigoLocalClient; concurrency is exercised as contention for that mutex, races that need two overlapping application calls are outside what the node can do (DESIGN 12.4)")
 	n := c.N(12, 80)
 	c.Parallel(n, 0, func(i int) {
 		rng := c.Rng("c09", i)
